@@ -14,7 +14,9 @@ CHECKS = {
               "depth 1 and every depth-2 shape wrapped once more = depth 3); (b) scalar sweeps (all i8, i16 boundaries or all "
               "i16, i32/i64 +-2^k+-1, 40 double bit patterns, payload lengths around 128/4096/16384) in 5 contexts; (c) all "
               "ordered field-id pairs of a 13-id set x all leaf-kind pairs, nested-struct id patterns; (e) lists/sets of 65535, 65536, 65537 "
-              "[70000, 131073] one-byte strings / empty structs / empty lists and maps of 32767..32769 entries, bare and as a field; (d) all ordered pairs "
+              "[70000, 131073] one-byte strings / empty structs / empty lists and maps of 32767..32769 entries, bare and as a field; (f) lists, "
+              "sets and maps of 63, 64, 127, 128 [8191, 8192, 16383, 16384] elements (varint vs zigzag-varint width boundaries of a "
+              "count); (d) all ordered pairs "
               "(thorough: triples) of depth<=1 shapes written back to back through ONE writer and read through ONE reader; "
               "each x {binary, binary-LE, compact, unchecked} x {BytesMut, LinkedBytes, LinkedBytes zero-copy} x bin/string "
               "API pairs x {plain, generated-code-like} reader call sequences. distinct_nontrivial = distinct cases with >=2 "
@@ -74,7 +76,8 @@ CHECKS = {
               "each of {-1,0,1,rem-1,rem,rem+1,2^31-1,2^31-16,2^24,-2^31} for lengths and {-1,0,1,rem-1,rem,rem+1,2^22,2^24,2^16,-2^31} for element counts (own integer encoding; compact additionally over-long "
               "and unterminated varints) resp. 7 field ids resp. 18 type bytes; every single-bit flip (seeds <=12 bytes quick, all "
               "thorough); plus ALL byte strings of length<=2 and all strings of length 3..4 [5] over a 12-byte alphabet, each read "
-              "as struct/list/map/binary/set/i32. Targets: typed reads (plain and generated-code-like call sequence, all four "
+              "as struct/list/map/binary/set/i32; nesting 65, 66, 100, 5000 and 200 000 deep through struct fields, list / set elements, "
+              "map values and map keys (skip and async skip must answer with an error). Targets: typed reads (plain and generated-code-like call sequence, all four "
               "binary/string APIs), skip, async typed read and async skip. Oracle: Ok or Err; no panic, no dead worker, <2 s, bytes "
               "requested from the allocator <= 64 KiB + 1024 x input length, every strict prefix rejected. distinct_nontrivial = "
               "distinct (protocol, type, bytes) fault inputs. Generated-code level (every generated type of the semantic corpus, "
@@ -274,7 +277,7 @@ CHECKS = {
         rule=("Seeds: default renderings of the C15 ASTs (every 9th in quick), one large multi-item document with comments, one "
               "non-ASCII document. Mutations enumerated completely per seed: every prefix; every token deleted, duplicated, replaced "
               "by each of a 40-token alphabet (every 3rd token for long seeds in quick); every number inflated to 10/11/19/20/40 "
-              "digits and to 7 extreme literals; tokens repeated 64/4096/60000 times (nesting tokens - [ { < ( list map set only 2 "
+              "digits and to 26 extreme literals (decimal and hex at and beyond the i64 limits with both signs, malformed exponents); tokens repeated 64/4096/60000 times (nesting tokens - [ { < ( list map set only 2 "
               "and 64 times: deeper nesting is outside the statement); ALL strings of length <=2 [4] over a 40-character alphabet, "
               "alone and behind 7 plausible prefixes; type and constant nesting depth 1..64 (list<..>, map<..>, [[..]], {{..}}, "
               "----1). Every parse runs on a thread with a 2 MiB stack. Oracle: Ok or Err; no panic, no stack overflow (worker "
@@ -283,7 +286,7 @@ CHECKS = {
     ),
     "C14": dict(
         engine="py:c14", level="exploration", quick_cap=600, thorough_cap=7200,
-        rule=("Programs: the naming-stress and structural Thrift corpus of lib/corpus.py thrift_stress() (33 documents: every "
+        rule=("Programs: the naming-stress and structural Thrift corpus of lib/corpus.py thrift_stress() (35 documents: every "
               "Rust keyword of pilota's KEYWORDS_SET as struct / field / argument / method / enum / variant / typedef / const name; "
               "std prelude names as type and variant names; identifiers colliding after case conversion; recursion through "
               "optional fields, lists, maps, unions, typedefs, exceptions and required fields (incl. required through a union); type "
@@ -304,7 +307,8 @@ CHECKS = {
     "C17": dict(
         engine="py:c17", level="model_checking", quick_cap=600, thorough_cap=7200,
         rule=("Documents: a 5-file Thrift document with nested/sibling namespaces, the case-collision document, the service "
-              "document, six files sharing one rs namespace, twelve modules with an identical item under Builder::dedup, a protobuf "
+              "document, six files sharing one rs namespace, twelve modules with an identical item under Builder::dedup, a four-file "
+              "document compiled with ignore_unused and Builder::touch naming items of three files, a protobuf "
               "file with 4+ nested messages [thorough: 5 more incl. a two-file protobuf import] x output modes "
               "{single file, split files, workspace}. Schedules: (a) with the cfg(pilota_verif) hook the per-module code generation "
               "tasks run sequentially in a dictated order: ALL permutations for <=4 [5] tasks (adjacent transpositions + reversal "
@@ -472,6 +476,17 @@ def run_check(pid, tier, seed):
                                                "case": {"index": d["index"], "shard": d["shard"], "part": i},
                                                "detail": d["log_tail"][-300:]})
             g["count"] += 1
+        # a semantic-corpus document the generator fails on, or whose output had to be dropped from
+        # the harness because it does not compile, would silently shrink what this check covers:
+        # it is a failure of this check (C14 names the construct; here the document is enough)
+        for bf in (info or {}).get("builder_failures", []):
+            sig = "%s|generator-failed-on-corpus-document|%s" % (pid, bf.get("doc"))
+            m["failures"].setdefault(sig, {"sig": sig, "count": 0, "first_index": 0, "case": {"doc": bf.get("doc"), "cfg": bf.get("cfg"), "part": i},
+                                           "detail": str(bf.get("msg"))[:300]})["count"] += 1
+        for dm in (info or {}).get("dropped_modules", []):
+            sig = "%s|generated-code-does-not-compile|%s" % (pid, str(dm.get("module")).rsplit("__", 1)[0])
+            m["failures"].setdefault(sig, {"sig": sig, "count": 0, "first_index": 0, "case": {"module": dm.get("module"), "part": i},
+                                           "detail": "; ".join(dm.get("errors", []))[:300]})["count"] += 1
         for f in m["failures"].values():
             f["part"] = i
         merged = m if merged is None else vlib.merge_two(merged, m)
